@@ -531,7 +531,7 @@ fn run_storm(r: &Storm) -> CaseResult {
 }
 
 fn run_storms(rec: &Recorder, check: &'static str) {
-    let rounds = rec.tier().pick(24, 600);
+    let rounds = rec.tier().pick(24, 200);
     let mut sm = SplitMix::from(rec.opts.seed, check, 0);
     let mut n = 0u64;
     for k in 0..rounds {
@@ -861,7 +861,7 @@ fn run_concat_race(r: &ConcatRace) -> CaseResult {
 }
 
 fn run_concat_races(rec: &Recorder, check: &'static str) {
-    let rounds = rec.tier().pick(10, 300);
+    let rounds = rec.tier().pick(10, 60);
     let mut sm = SplitMix::from(rec.opts.seed, check, 0);
     let mut n = 0u64;
     for k in 0..rounds {
@@ -895,8 +895,8 @@ pub fn property() -> Property {
             "hook: TimeZoneDatabase::__verif_set_ttl (cfg jiff_verif)",
         ],
         checks: vec![
-            Box::new(Prop { name: "c19.history", quick: 30_000, thorough: 1_500_000, strategy: strat_history, test: test_history }),
-            Box::new(Prop { name: "c19.concat_history", quick: 20_000, thorough: 1_000_000, strategy: strat_chistory, test: test_chistory }),
+            Box::new(Prop { name: "c19.history", quick: 30_000, thorough: 600_000, strategy: strat_history, test: test_history }),
+            Box::new(Prop { name: "c19.concat_history", quick: 20_000, thorough: 400_000, strategy: strat_chistory, test: test_chistory }),
             Box::new(Sweep { name: "c19.concurrent", run: run_concurrent, replay: replay_round }),
             Box::new(Sweep { name: "c19.reset_storm", run: run_storms, replay: replay_storm }),
             Box::new(Sweep { name: "c19.concat_race", run: run_concat_races, replay: replay_concat_race }),
